@@ -680,6 +680,8 @@ def r07_14(ctx: Ctx, rule: str = "R07.14") -> None:
         cfg = cfg_of(f.node)
         sites = [a for a in walk(f.node) if isinstance(a, ast.Assign) and any(norm(t) == "self.worker" for t in a.targets)]
         sites += [c for c in q.calls(f) if attr_tail(c) == "seek" and norm(c.func.value) == "self.fp" and c.args and "_packed_start" in norm(q.expand_locals(f, c.args[0]))]
+        # handing the session's own handle to the extraction worker moves it as well (extract_single seeks to each folder)
+        sites += [c for c in q.calls(f) if attr_tail(c) == "extract" and norm(c.func.value) == "self.worker" and any(norm(a_) == "self.fp" for a_ in c.args)]
         for sgt in sites:
             n += 1
             sn = q.node_for(f, sgt)
